@@ -88,7 +88,7 @@ def bracket_rule(
         for key, (ex, path, labs) in list(groups.items())[:12]:
             steps = [f"{p.kind}@{p.line}:{norm(p.ast)[:50] if p.ast is not None else ''} --{lab}-->" for p, lab in zip(path, labs[1:] + [""])][:10]
             rr.fail(
-                f"{f.short}:{norm(n.ast)[:60]}:{key}",
+                f"{f.short}:{norm(n.ast)[:60]}:{'exceptional' if ex.kind == 'raise_exit' else 'normal'}-exit",
                 f.loc(n.ast),
                 f"{what}: a path from `{norm(n.ast)[:60]}` reaches the function's {'exceptional' if ex.kind == 'raise_exit' else 'normal'} exit without the closing call ({key})",
                 steps,
